@@ -637,7 +637,7 @@ func runC18(r *Run) {
 	for _, c := range corpus {
 		x.run(r, c.sc, c.paths, reps, "corpus")
 	}
-	nSc, nPaths := r.N(70, 700), r.N(12, 16)
+	nSc, nPaths := r.N(70, 2500), r.N(12, 20)
 	for i := 0; i < nSc; i++ {
 		sc := c18GenScenario(r, x, r.Thorough())
 		_, table, _ := x.apply(sc)
